@@ -258,7 +258,7 @@ def handle (line : String) : String :=
             | some (name, rule) =>
               let its ← items rels exts raw []
               let real ← resolve its endOff
-              let env : Env := { strs := rule.strs, blocks, filesize := c.buf.length, ext := c.ext, rules := verdicts }
+              let env : Env := { strs := rule.strs, blocks, filesize := c.buf.length, ext := c.ext, rules := verdicts, disabled := c.disabled }
               let model := compileRule (ctxOfEnv env) rule.cond
               match firstDiff real model with
               | some k =>
@@ -273,7 +273,8 @@ def handle (line : String) : String :=
                 if c.1 > 0 then
                   for nm in names do
                     hist := addCounts hist nm c
-              let v := match fin with
+              -- OP_INIT_RULE skips the code of a disabled rule: it does not match
+              let v := if c.disabled.contains ridx then some false else match fin with
                 | some s => verdictOf s
                 | none => none
               verdicts := verdicts ++ [v.getD false]
